@@ -13,7 +13,7 @@ SUITE=$(cargo nextest run --workspace --no-fail-fast --tool-config-file pb:/w/li
 echo "== demo WITH change"
 DEMO_MUT=$(cargo nextest run --offline --test seed_demo --no-fail-fast 2>&1 | grep -E "Summary" | tail -1); echo "$DEMO_MUT"
 rm -f tests/seed_demo.rs
-cd /verif
+cd ${VROOT:-/verif}
 echo "== checks on the changed tree"
 RES=""
 for P in C01 C02 C03 C04 C05 C06 C07 C08 C09 C10 C11 C12 C13 C14 C15 C16 C17; do
